@@ -97,6 +97,24 @@ def build_project(g: dict, rnd: random.Random) -> dict:
                       "anc": n["anc"], "ignored": False, "unreadable": False, "cov": True, "own": info,
                       "dot": {"present": False, "cop": [], "lic": [], "bad": False},
                       "want": want, "untrackedDir": False, "ctx": n["ctx"]})
+    if g["git"] and rnd.random() < 0.5:
+        # in half of the repositories every plain directory also holds a tracked covered file, so that ignore rules meet
+        # tracked directories (otherwise most ignored files sit in wholly untracked directories)
+        for f in list(files):
+            for k in range(1, len(f["path"])):
+                if not all(c == "plain" for c in f["ctx"][:k]):
+                    break
+                comp = "/".join(f["path"][:k]) + "/zz_tracked_companion.py"
+                if comp in used or comp in dirset:
+                    continue
+                used.add(comp)
+                tracked.append(comp)
+                files.append({"path": f["path"][:k] + ["zz_tracked_companion.py"], "pathstr": comp, "pchars": list(comp),
+                              "ncls": "plain", "type": "text", "anc": f["anc"][:k], "ignored": False, "unreadable": False,
+                              "cov": True, "own": {"cop": ["SPDX-FileCopyrightText: 2020 Some One"],
+                                                   "lic": [{"text": "MIT", "tree": {"key": "MIT", "base": "MIT"}}], "bad": False},
+                              "dot": {"present": False, "cop": [], "lic": [], "bad": False},
+                              "want": "tracked", "untrackedDir": False, "ctx": f["ctx"][:k]})
     return {"files": files, "licfiles": [], "tomls": [], "dep5": [], "opts": g["opts"], "cls": {"MIT": "cur"},
             "git": g["git"], "_gitignore": gitignore, "_tracked": tracked, "_submodules": sorted(submodules),
             "_untracked_dirs": sorted(untracked_dirs)}
@@ -140,6 +158,14 @@ def materialise_c03(p: dict, root: Path, outside: Path):
             tgt.parent.mkdir(parents=True, exist_ok=True)
             tgt.write_text(HEADER + "x = 1\n")
             os.symlink(tgt, path)
+            # one abstract class, three concrete shapes: a live link, a dangling one, a link to a directory
+            shape = sum(map(ord, "/".join(f["path"]))) % 3
+            if shape == 1:
+                tgt.unlink()
+            elif shape == 2:
+                tgt.unlink()
+                tgt.mkdir()
+                (tgt / f"inside-{abs(hash(tgt.name)) % 10**8}.py").write_text("print('reached through a link')\n")
         elif t == "binary":
             path.write_bytes(b"\x89BIN\x00\x01\x02\xff\xfe\x00" + os.urandom(24))
         elif f["ncls"] == "REUSE.toml":
@@ -310,6 +336,25 @@ def run_case(case: dict) -> list:
                         continue
                     scope = list(dirs[rnd.randrange(len(dirs))])
                 obs = annotate_route(case, p, scope, case["seed"])
+            elif route == "lint-subroot":
+                # the project root is a sub-directory of the Git work tree (`--root DIR`): Git's ignore rules still apply
+                plain = sorted({tuple(f["path"][:k]) for f in p["files"] for k in range(1, len(f["path"]))
+                                if all(a["cls"] == "plain" and not a["symlink"] and not a.get("submodule") for a in f["anc"][:k])
+                                and not any(x in ("ignoreddir", "untrackeddir", "submodule", "symlinkdir") for x in f.get("ctx", [])[:k])})
+                if not plain:
+                    continue
+                # prefer a directory below which Git ignores something while something else is tracked
+                hot = [d_ for d_ in plain
+                       if any(f["ignored"] and tuple(f["path"][:len(d_)]) == d_ for f in p["files"])
+                       and any(not f["ignored"] and not f.get("untrackedDir") and tuple(f["path"][:len(d_)]) == d_ for f in p["files"])]
+                pool = hot or plain
+                scope = list(pool[rnd.randrange(len(pool))])
+                sub = root.joinpath(*scope)
+                if not sub.is_dir() or sub.is_symlink():
+                    continue
+                obs = observe(sub, p["opts"], "lint")
+                for f_ in obs["files"]:
+                    f_["path"] = "/".join(scope) + "/" + f_["path"]
             else:
                 obs = observe(root, p["opts"], route)
             events.append({"tid": case["tid"] * 8 + ri, "p": pj, "checks": ["C03"], "scope": scope,
@@ -350,9 +395,14 @@ def run(ctx: core.Ctx) -> int:
         routes = ["lint"] if (i % 5 and i < n_nogit) else ["lint", "spdx", "lint-file"]
         if i % 3 == 0 or i >= n_nogit:
             routes += ["annotate", "annotate-sub"]
+        if i >= n_nogit:
+            routes.append("lint-subroot")
         cases.append({"tid": i + 1, "g": g, "seed": ctx.seed * 7919 + i, "routes": routes})
     evl = ctx.pmap(run_case, cases, chunksize=8)
     events = [e for es in evl for e in es]
+    for c_, es in zip(cases, evl):
+        for e in es:                     # (events carry tid = 8 x case id + route index)
+            ctx._case_of[e["tid"]] = ("props.c03:run_case", c_)
     for ev in events[:: max(1, len(events) // 5)][:5]:
         ctx.samples.append({"case": json.loads(ev["label"]), "examined": [f["path"] for f in ev["obs"]["files"]]})
     ctx.validate("Trace_Project", "Trace_Project.cfg", events)
